@@ -73,6 +73,8 @@ class VFS:
         return io.StringIO(vfs.files[path].decode(encoding or "utf-8"))
 
     def replace(self, a, b):
+        if str(a) not in self.files:
+            raise FileNotFoundError(str(a))
         self.ops.append(("replace", str(a), str(b)))
         self.files[str(b)] = self.files.pop(str(a))
 
@@ -177,6 +179,8 @@ def save_crash(ctx, driver, rng, loop, tmpdir):
         # write the old file for real (no crash), read its bytes
         c_old = loop.run_until_complete(build(old))
         v0 = VFS({})
+        for f in os.listdir(tmpdir):
+            os.unlink(os.path.join(tmpdir, f))
         with mock.patch.object(ctlmod, "open", v0.open, create=True), mock.patch.object(os, "replace", v0.replace), mock.patch.object(os, "fsync", v0.fsync):
             c_old.save_data(target)
         old_bytes = v0.files.get(target)
@@ -186,7 +190,12 @@ def save_crash(ctx, driver, rng, loop, tmpdir):
         # now the save under test, recorded
         c_new = loop.run_until_complete(build(new))
         v = VFS({target: old_bytes})
-        with mock.patch.object(ctlmod, "open", v.open, create=True), mock.patch.object(os, "replace", v.replace), mock.patch.object(os, "fsync", v.fsync):
+        # the old file also exists on the real disk, so that code which looks before it leaps (exists(), stat()) sees it
+        for f in os.listdir(tmpdir):
+            os.unlink(os.path.join(tmpdir, f))
+        with builtins.open(target, "wb") as fp:
+            fp.write(old_bytes)
+        with mock.patch.object(ctlmod, "open", v.open, create=True), mock.patch.object(os, "replace", v.replace), mock.patch.object(os, "rename", v.replace), mock.patch.object(os, "fsync", v.fsync):
             c_new.save_data(target)
         new_bytes = v.files[target]
         shape = tuple((op[0], "tmp" if len(op) > 1 and op[1] != target else "target") for op in v.ops if op[0] in ("open", "write", "replace"))
